@@ -221,7 +221,7 @@ func c10Run(c c10Case) Outcome {
 		}
 	}
 	lowID := uint32(0)
-	if c.AtLimit && c.LowRefused && c.InFlight > 0 {
+	if c.AtLimit && c.LowRefused && c.InFlight > 0 && !c.Backpressure {
 		lowID = id
 		id += 2
 	}
@@ -235,13 +235,12 @@ func c10Run(c c10Case) Outcome {
 		}
 	}
 	if lowID != 0 {
-		// every slot is held: this one is refused, whatever its id
+		// every slot is held: this one is refused, whatever its id. The server must have dealt with it before
+		// anything releases a handler (a freed slot turns the same frame into a connection error: lower stream id)
 		idOf["low"] = lowID
 		sendReq(h, lowID, simpleReq("low"))
-		if !c.Burst {
-			if ok, d := h.Quiesce(); !ok {
-				return Outcome{Inconcl: "no quiescence before the offence: " + d}
-			}
+		if ok, d := h.Quiesce(); !ok {
+			return Outcome{Inconcl: "no quiescence before the offence: " + d}
 		}
 	}
 	beforeOff := id // requests at or above this id are written after the offence
